@@ -159,7 +159,10 @@ class Gate(io.RawIOBase):
     def write(self, b):
         if self.owner_dead():
             return len(b)
-        if self.full:
+        if self.full or (getattr(SIM, "disk_full", False) and len(b)):
+            if not self.full:
+                SIM.fault("enospc-persistent")
+                SIM.event("enospc", self.rel, self.n, yield_=False)
             raise OSError(errno.ENOSPC, "No space left on device (simulated)", self.path)
         b = bytes(b)
         total = 0
